@@ -45,7 +45,9 @@ def is_real_trigger(src, trigger):
     r = scopes.Resolver(tree)
     for s in r.scopes:
         for (node, slot, name, ctx) in s.occ:
-            if name == trigger and ctx == 'load' and r.keys[(id(node), slot)] == [('U', trigger)]:
+            if name == trigger and ctx == 'load' and (r.keys[(id(node), slot)] == [('U', trigger)] or
+                                                      (r.keys[(id(node), slot)] == [('L', 0, trigger)] and trigger not in r.module_assigned)):
+                # unbound in the module, or merely declared global somewhere without any assignment: the builtin
                 return True
     return False
 
